@@ -1218,12 +1218,24 @@ class Engine:
             raise Unsupported('method %s.%s not found' % (obj, f.name))
         mod, cname, node = found
         qual = '%s.%s.%s' % (mod, cname, f.name)
+        if self.current is not None and self.current.abstract_calls and qual.endswith(self.current.abstract_calls):
+            # fault model: the callee may do anything to the state it can reach and may raise any Exception
+            b = self.bind_params(ctx, source.prepared(node), args, kwargs, skip_self=True)
+            vals = b[0] if isinstance(b[0], dict) else {}
+            pre = ctx.st
+            ctx.st = ctx.st.havoc(self.current.modifies, 'after_' + f.name)
+            c2 = ctx.fork()
+            ctx.notes.append(('called', qual, dict(vals), pre, ctx.st, 'return'))
+            c2.notes.append(('called', qual, dict(vals), pre, c2.st, 'raise'))
+            yield ctx, S(smt.fresh('res_' + f.name, V))
+            yield c2, Raised(Exc('AppException', []))
+            return
         contract = self.registry.lookup(qual, obj, self.schema) if self.registry else None
         ext = self.ext.method_override(self, ctx, obj, qual, f.name)
         if ext is not None:
             yield from ext(self, ctx, args, kwargs)
             return
-        if contract is not None and not (self.current is not None and qual in self.current.inline):
+        if contract is not None and not contract.thin and not (self.current is not None and qual in self.current.inline):
             yield from self.apply_contract(ctx, contract, obj, node, args, kwargs, qual)
             return
         yield from self.inline(ctx, node, obj, (mod, cname), mod, args, kwargs, qual)
